@@ -189,3 +189,10 @@ def h1(ctx: Ctx) -> None:
     from .c02 import r2 as heap_rule
 
     heap_rule(ctx)
+
+
+@rule("C03.H2", "premise shared with C02: the order at the top of a queue is the best order (comparison = priority in every world)", "T6 (same rule as C02.R1)", floor=4)
+def h2(ctx: Ctx) -> None:
+    from .c02 import r1 as order_rule
+
+    order_rule(ctx)
